@@ -1,12 +1,12 @@
 #!/bin/sh
 # runs every claimed check's quick (or $1) tier in sequence; summary lines only
 tier=${1:-quick}
-cd /verif
+cd "$(dirname "$0")"
 for id in $(python3 -c "import json;print(' '.join(c['property_id'] for c in json.load(open('MANIFEST.json'))['checks']))"); do
   s=$(date +%s)
-  ./pmc check $id --tier $tier > build/t/runall_$id.log 2>&1
+  ./pmc check $id --tier $tier > build/runall_$id.log 2>&1
   rc=$?
   e=$(date +%s)
-  echo "$id rc=$rc $((e-s))s $(head -1 build/t/runall_$id.log | cut -c1-160)"
-  grep -a "^VIOLATION\|MACHINERY\|VACUOUS" build/t/runall_$id.log | head -5
+  echo "$id rc=$rc $((e-s))s $(head -1 build/runall_$id.log | cut -c1-160)"
+  grep -a "^VIOLATION\|MACHINERY\|VACUOUS" build/runall_$id.log | head -5
 done
